@@ -4711,9 +4711,18 @@ class Entity(object, metaclass=EntityMeta):
             OrmError, '%s object %s has to be stored in DB before it can be pickled'
                       % (obj._status_.capitalize(), safe_repr(obj)))
         d = {'__class__' : obj.__class__}
+        state = {}
         for attr, val in obj._vals_.items():
-            if not attr.is_collection: d[attr.name] = val
-        return unpickle_entity, (d,)
+            if attr.is_collection: continue
+            if attr.pk_offset is not None: d[attr.name] = val
+            else: state[attr.name] = val
+        # objects can refer to each other (one-to-one, boss of my boss): the object is re-created from its key alone,
+        # the other values go to the state, the only part where pickle resolves reference cycles
+        return unpickle_entity, (d,), state
+    def __setstate__(obj, state):
+        if obj._status_ in del_statuses: return
+        adict = obj._adict_
+        obj._db_set_({adict[name]: val for name, val in state.items()}, unpickling=True)
     @cut_traceback
     def __init__(obj, *args, **kwargs):
         obj._status_ = None
